@@ -52,7 +52,7 @@ class HashTable:
         x : float, list[float]
         T : float
         '''
-        return hash(tuple((np.concatenate((x, [T]))*self.hash_sensitivity).astype(np.int32)))
+        return hash(tuple((np.concatenate((x, [T]))*self.hash_sensitivity).astype(np.int64)))
 
     def retrieveFromHashTable(self, x: np.array, T: np.array):
         '''
